@@ -75,3 +75,7 @@ CLAIMS["C14"] = dict(level="exploration",
     technique="exhaustive enumeration of the full product of verification knobs x certificate kinds x versions x {fresh, two resumption histories} x ECH {accepted, rejected} against a reference verification predicate",
     text="Every combination of client, version, certificate kind, ServerName, InsecureServerNameToVerify, InsecureSkipTimeVerify, InsecureSkipVerify and connection history (fresh; resumed after an unverified first connection; resumed after a leniently verified one) is run and its success compared with a reference predicate; failures must be CertificateVerificationError; ECH accepted/rejected paths are checked for the verification name and the error type.",
     note="Reference predicate from the Config documentation; fixture PKI and fixed clock; one known finding (not-yet-valid leaf resumed after a lenient first connection).")
+CLAIMS["C25"] = dict(level="exploration",
+    technique="exhaustive enumeration of every negotiable (version, suite) x traffic shapes (write sizes at record boundaries, read buffers, key-update positions) and of every single-byte flip / truncation of small records in both directions",
+    text="For every (version, suite) pair the utls server negotiates, both directions, all 1-2 write sequences over boundary sizes, 4 read-buffer sizes and 5 key-update placements must deliver exactly the written bytes; every byte position of the records of a 5- and a 20-byte write is flipped (two masks) and every truncation applied, and the receiver must error and return only a prefix. Weak CBC suites are exercised on forged connections.",
+    note="Single-suite custom specs pin the suite; tampering granularity is one transport write; weak CBC suites are not negotiable with any server in the sandbox.")
